@@ -442,9 +442,15 @@ impl Sys for PoolSlotSys {
         }
 
         // --- C06: signals raised exactly when due, once
+        let fin_now = w.pool.pool.finalized_slot().inner();
         let got: BTreeSet<_> = got_s2n.iter().copied().collect();
         let due: BTreeSet<_> = due_s2n.iter().copied().collect();
         for m in due.difference(&got) {
+            // Once the slot is finalized at the node no fallback vote can matter any more and the
+            // pool stops tracking parents below its watermark: a signal there is allowed, not required.
+            if m.0 <= fin_now {
+                continue;
+            }
             out.push(
                 format!("C06:safe-to-notar-missing:last={}", trigger_class(op, self.own)),
                 format!(
@@ -454,6 +460,11 @@ impl Sys for PoolSlotSys {
             );
         }
         for e in got.difference(&due) {
+            // in a slot that is already finalized at the node a signal may come late (see above),
+            // but only once and only if its conditions hold by now
+            if e.0 <= fin_now && w.rf.slot(e.0).s2n_due.contains(&e.1) && w.s2n_seen.get(&(e.0, e.1)).copied().unwrap_or(0) == 1 {
+                continue;
+            }
             out.push(
                 format!("C06:safe-to-notar-early-or-repeated:last={}", trigger_class(op, self.own)),
                 format!(
